@@ -183,6 +183,7 @@ type lockState struct {
 }
 
 type Interp struct {
+	pools     map[string][]Value
 	locks     map[string]*lockState
 	taskDepth int
 	Prog      *ssa.Program
@@ -362,6 +363,7 @@ func (in *Interp) resetPath(prefix []int64) {
 	in.ufApps = map[string][]ufApp{}
 	in.tasks = nil
 	in.locks = map[string]*lockState{}
+	in.pools = nil
 	in.taskDepth = 0
 	in.errIDs = map[string]int{}
 	in.opaqueSeq = 0
